@@ -37,6 +37,8 @@ H = {
     "k_into_sequential_preserves_state": ("quick", 300, 900, "into_sequential moves Y_w, model, epsilon (bit pattern), weights, cache unchanged", None),
     "k_nonfinite_never_reaches_svd": ("quick", 600, 2400, "for ALL f64 bit patterns of a 2x2 basis matrix and of the weights: the matrix handed to the SVD is finite (SVD precondition), at build",
                                       [("nonfinite", dict(n=3, p=1, val=v, where="phi", i=1, j=0)) for v in ("nan", "inf")] + [("nonfinite", dict(n=5, p=2, val="nan", where="phi", i=0, j=1))]),
+    "k_nonfinite_never_reaches_svd_parallel": ("quick", 600, 2400, "same for the parallel flavour (its own set_params implementation), built with --features parallel",
+                                               [("nonfinite", dict(n=3, p=1, val="nan", where="phi", i=1, j=0, par=1)), ("nonfinite", dict(n=5, p=2, val="nan", where="phi", i=0, j=1, par=1))]),
     "k_no_panic_downstream_of_svd": ("thorough", 0, 3600, "with arbitrary SVD factors and all f64 inputs (2x2x1) nothing downstream of the SVD panics", None),
 }
 
@@ -46,7 +48,7 @@ K_PROPS = {
     "C04": ["k_fit_err_on_absent_cache", "k_fit_ok_on_zero_residuals", "k_fit_maps_termination", "k_fit_err_on_failing_derivative"],
     "C06": ["k_weights_mul_probe_f32", "k_weights_mul_f32"],
     "C07": ["k_to_vector_u32"],
-    "C08": ["k_nonfinite_never_reaches_svd", "k_no_panic_downstream_of_svd", "k_fit_err_on_absent_cache", "k_band_rejects_bad_probability"],
+    "C08": ["k_nonfinite_never_reaches_svd", "k_nonfinite_never_reaches_svd_parallel", "k_no_panic_downstream_of_svd", "k_fit_err_on_absent_cache", "k_band_rejects_bad_probability"],
     "C09": ["k_set_params_fault_logic", "k_fit_err_on_absent_cache", "k_fit_err_on_failing_derivative", "k_update_fills_cache"],
     "C10": ["k_model_eval_22", "k_copy_matrix_to_column", "k_model_eval_33"],
     "C11": ["k_into_sequential_preserves_state"],
@@ -79,7 +81,17 @@ def run(prop, tier, seed, only=None):
     # group by cap so that each batch has one timeout
     for cap in sorted(set(caps.values())):
         batch = [n for n in names if caps[n] == cap]
-        out.update(engine_k.run_harnesses(batch, cap, parallel=5))
+        plain = [n for n in batch if not n.endswith("_parallel")]
+        par = [n for n in batch if n.endswith("_parallel")]
+        from concurrent.futures import ThreadPoolExecutor
+        with ThreadPoolExecutor(max_workers=2) as ex:
+            futs = []
+            if plain:
+                futs.append(ex.submit(engine_k.run_harnesses, plain, cap, 4))
+            if par:
+                futs.append(ex.submit(engine_k.run_harnesses, par, cap, 2, ("--features", "parallel")))
+            for f in futs:
+                out.update(f.result())
     for n in names:
         r = out[n]
         res["functions"].append(f"{n}: {H[n][3]}")
@@ -146,6 +158,8 @@ def native_grid(prop, tier, seed):
                 for where in ("phi", "y", "w", "alpha"):
                     for (i, j) in ([(0, 0), (n - 1, p)] if where == "phi" else [((seed + 1) % n, 0)]):
                         cases.append(("nonfinite", dict(n=n, p=p, val=val, where=where, i=i, j=j, weights=1 if where == "w" or (i + j) % 2 else 0)))
+                        if val in ("nan", "inf") and where in ("phi", "w"):
+                            cases.append(("nonfinite", dict(n=n, p=p, val=val, where=where, i=i, j=j, weights=1, par=1)))
     if prop == "C09":
         for (n, p) in ([(6, 1)] if tier == "quick" else [(6, 1), (8, 2)]):
             for persistent in (0, 1):
